@@ -513,6 +513,31 @@ pub fn check(tier: Tier) -> i32 {
     }
     // the self-test runs the library too: on a tree that panics there it counts as failed (a verdict, if there is one,
     // takes precedence over it)
+    // (d) the text of the mismatch error names the file's type and the offered type, for all 156 pairs
+    {
+        use crate::bridge::*;
+        for (fi, file_ty) in ALL13.iter().enumerate() {
+            for (oi, offered) in ALL13.iter().enumerate() {
+                if fi == oi {
+                    continue;
+                }
+                let pal = &pals[fi * 13 + oi];
+                let env = WEnv::new(false);
+                let mut w = shapefile::ShapeWriter::new(env.shp.clone());
+                let _ = write_shape(&mut w, &pal.lib[0]);
+                let text = write_shape(&mut w, pal.other.as_ref().unwrap()).err().map(|e| e.to_string());
+                let cj = json!({"file_type": file_ty.name(), "offered_type": offered.name(), "error_text": true});
+                let mut hh = Fnv::new();
+                hh.str(&cj.to_string());
+                extra.case_done(hh.finish(), true, 8);
+                extra.lib_calls += 2;
+                match text {
+                    Some(t) if super::c06::text_names(&t, *file_ty) && super::c06::text_names(&t, *offered) => {}
+                    other => extra.violation("rejected-write-error-text", || cj.clone(), || format!("a {} offered to a {} file: the error says {:?}, which does not name both types", offered.name(), file_ty.name(), other)),
+                }
+            }
+        }
+    }
     let st = catch(|| selftest(&pals)).unwrap_or((1, 0));
     let mut ctxs = res.ctxs;
     ctxs.push(extra);
@@ -546,7 +571,7 @@ pub fn check(tier: Tier) -> i32 {
             tier,
             level: "model_checking",
             engine: "E1 stateright BFS over operation histories on the real ShapeWriter / Writer over instrumented devices",
-            rule: "all 13x12 ordered (file type, offered type) pairs x {ShapeWriter+shx, ShapeWriter, complete Writer, complete Writer built over a ShapeWriter that already has its type} x every history over {Wa, Wb, F, R=write of the offered type} (first op a W, <=2 R, no F on the complete Writer) up to the depth bound; every history without R also ended by the consuming write_shapes(self, [offered type; 1..2]); plus a rejected write after EVERY number 1..=bound of accepted records (per-call operation log), and user-defined shapes of another type announcing sizes up to usize::MAX/2, and user-defined shapes of each of the 14 types (NullShape included) offered to a file of every other type; plus every history up to the fault-history bound with one or two R behind a W under every single one-shot fault (thorough: every pair) on .shp / .shx, compared with the same history minus the rejected calls under the same faults; non-trivial = contains an R",
+            rule: "all 13x12 ordered (file type, offered type) pairs x {ShapeWriter+shx, ShapeWriter, complete Writer, complete Writer built over a ShapeWriter that already has its type} x every history over {Wa, Wb, F, R=write of the offered type} (first op a W, <=2 R, no F on the complete Writer) up to the depth bound; every history without R also ended by the consuming write_shapes(self, [offered type; 1..2]); plus a rejected write after EVERY number 1..=bound of accepted records (per-call operation log), and user-defined shapes of another type announcing sizes up to usize::MAX/2, the text of the mismatch error names both types (all 156 pairs); and user-defined shapes of each of the 14 types (NullShape included) offered to a file of every other type; plus every history up to the fault-history bound with one or two R behind a W under every single one-shot fault (thorough: every pair) on .shp / .shx, compared with the same history minus the rejected calls under the same faults; non-trivial = contains an R",
             bounds: json!({"depth": depth, "fault_history_bound": tier.pick(4, 5), "type_pairs": 156, "routes": 4, "max_rejected_calls": 2}),
             exhaustive: true,
             assumptions: vec!["'changes nothing else' is judged by byte equality with the same history minus the rejected calls, run on the same tree; the .dbf date stamp (the only clock) is masked".into()],
@@ -590,6 +615,16 @@ fn replay_extra(v: &Value) -> Option<Vec<(String, String)>> {
             out.push(("count-sweep:rejected-write-wrote-bytes".to_string(), format!("the rejected write after {} accepted records wrote to a destination", n)));
         }
         return Some(out);
+    }
+    if v.get("error_text").is_some() {
+        let offered = Ty::from_name(v.get("offered_type")?.as_str()?)?;
+        let pal = Palette::new(file_ty, Some(offered));
+        let _ = write_shape(&mut w, &pal.lib[0]);
+        let text = write_shape(&mut w, pal.other.as_ref().unwrap()).err().map(|e| e.to_string());
+        return Some(match text {
+            Some(t) if super::c06::text_names(&t, file_ty) && super::c06::text_names(&t, offered) => vec![],
+            other => vec![("rejected-write-error-text".to_string(), format!("the error says {:?}, which does not name both types", other))],
+        });
     }
     let offered = v.get("offered")?.as_str()?.to_string();
     let pal = Palette::new(file_ty, None);
